@@ -91,6 +91,14 @@ def pivot (p : String) (pm pm0 : Eqn α) : Eqn α :=
     body := pm.body ++ scaleBody r ((pm0.head, NumOps.lit 0 - NumOps.lit 1) :: pm0.body)
     k := pm.k.addScaled r pm0.k }
 
+/-- `trxn_swap(n)`: solve the equation for species `n` (coefficient `c ≠ 0`): `la n = (la head − K − Σ rest) / c` -/
+def solveFor (n : String) (e : Eqn α) : Eqn α :=
+  let c := coefOf n e.body
+  let r := NumOps.lit 0 - NumOps.lit 1 / c
+  { head := n
+    body := scaleBody r ((e.head, NumOps.lit 0 - NumOps.lit 1) :: removeName n e.body)
+    k := LogK.smul r e.k }
+
 /-- `molalities()`: `lm = lk − lg + Σ c·la` -/
 def speciateLm (lk lg : α) (la : String → α) (body : List (String × α)) : α :=
   lk - lg + evalBody la body
